@@ -421,9 +421,13 @@ func (rQuery *RunningQueryState) withLockDeleteQuery() {
 		return
 	}
 
-	if !rQuery.isCancelled {
+	// Always release the timeout context: for a cancelled query its goroutine and timer would
+	// otherwise stay until the query timeout (minutes) expires.
+	if rQuery.timeoutCancelFunc != nil {
 		rQuery.timeoutCancelFunc()
+	}
 
+	if !rQuery.isCancelled {
 		if rQuery.cleanupCallback != nil {
 			rQuery.cleanupCallback()
 		}
